@@ -577,13 +577,26 @@ def find_isometry(form, partial_map, force_oriented=False):
     kernel_basis = kernel(orth_partial @ form).swapaxes(-1, -2)
 
     # the kernel basis is only orthonormal for the Euclidean form, so
-    # if the form is indefinite it may contain (or span) null vectors,
-    # and Gram-Schmidt can fail. Instead, diagonalize the restriction
-    # of the form to the orthogonal complement of the partial frame
-    # (the restriction is nondegenerate whenever the partial frame is).
+    # if the form is indefinite on the orthogonal complement of the
+    # partial frame, the basis may contain (or span) null vectors, and
+    # Gram-Schmidt can fail. In that case, diagonalize the restriction
+    # of the form to the complement instead (the restriction is
+    # nondegenerate whenever the partial frame is). When the form is
+    # definite on the complement, Gram-Schmidt cannot meet a null
+    # vector, and (unlike an eigenbasis of a form with repeated
+    # eigenvalues) it depends continuously on the partial frame.
     restricted_form = kernel_basis @ form @ kernel_basis.swapaxes(-1, -2)
+    signs = np.sign(np.linalg.eigvalsh(restricted_form.astype('float64')))
+    definite = np.abs(signs.sum(axis=-1)) == signs.shape[-1]
+
     conj = diagonalize_form(restricted_form, with_inverse=False)
-    orth_kernel = conj.swapaxes(-1, -2) @ kernel_basis
+    diagonalized = conj.swapaxes(-1, -2) @ kernel_basis
+
+    with np.errstate(divide="ignore", invalid="ignore"):
+        gram_schmidt = indefinite_orthogonalize(form, kernel_basis)
+
+    orth_kernel = np.where(definite[..., np.newaxis, np.newaxis],
+                           gram_schmidt, diagonalized)
 
     iso = np.concatenate([orth_partial, orth_kernel], axis=-2)
 
